@@ -172,6 +172,20 @@ def run(R):
             R.check(f.name == "__init__" or (f.parent is None and f.cls is None and f.name.startswith("_init")), "C10.NOTIFY", "%s:on_computed-store" % f.qualname, R.site(f, node),
                     "on_computed is assigned only while the future is constructed",
                     "%s replaces a future's on_computed hook after construction: subscribers registered before (or after a reset_unsafe()) are never notified of a later completion" % f.qualname)
+    # ... directly or by running a constructor again on a live object (`FutureBase.__init__(self)` from a method that is not a constructor)
+    for f in repo.all_functions():
+        if f.name == "__init__" or f.module.name.startswith("tests"):
+            continue
+        for c in q.calls(f.node):
+            recv, attr = q.attr_call(c)
+            if attr != "__init__" or recv is None:
+                continue
+            tgt = R.repo.resolve_dotted(f.module, q.dotted(recv) or "") if q.dotted(recv) else None
+            is_future_ctor = (tgt and tgt[0] == "class" and (tgt[1] is fb or tgt[1].is_subclass_of(fb))) or (q.src(recv).startswith("super(") and f.cls is not None and f.cls.is_subclass_of(fb))
+            if is_future_ctor:
+                R.violation("C10.NOTIFY", "%s:reconstructs" % f.qualname, R.site(f, c),
+                            "%s runs a future's constructor on a live object: it replaces on_computed by a fresh hook, so every subscriber registered before "
+                            "(e.g. before a reset_unsafe()) is silently dropped and never told of the next completion" % f.qualname)
     trig = kit.call_sites(comp, lambda c: (q.call_name(c) or "").startswith("self.on_computed"))
     if not trig:
         R.violation("C10.NOTIFY", comp.qualname + ":trigger", R.site(comp),
